@@ -13,7 +13,7 @@ I3  which `compute_consensus_rankings` write the algorithm object (state kept ac
 I6  (abstract evaluation) a sequence of runs on shared objects - one algorithm object, one Dataset object, one scheme
     object per scheme, several (dataset, scheme) pairs in a row - returns, at every step, the consensus a run on fresh
     objects returns.
-I4  randomness is reachable from an algorithm entry point only through KwikSortRandom._get_pivot.
+I4  randomness is reachable from an algorithm entry point only inside the KwikSort modules (the pivot choice).
 I5  (snapshots by abstract evaluation) running every algorithm configuration end to end, reading the score and the
     description, computing both partitions, leaves the evaluated dataset and scheme instances - rankings, buckets,
     positions, id maps, flags, name, penalty vectors - exactly as before; a second run on the same instances returns
@@ -53,7 +53,7 @@ def run(ctx) -> Result:
     res.rule("I2", "non-mutator methods of the data classes never write self", 40)
     res.rule("I3", "which compute_consensus_rankings write the algorithm object (recorded; decided by I6)", 9)
     res.rule("I6", "a sequence of runs on shared algorithm / dataset / scheme objects = runs on fresh objects, step by step", 10)
-    res.rule("I4", "random.* reachable from algorithm entry points only through KwikSortRandom._get_pivot", 1)
+    res.rule("I4", "random.* reachable from algorithm entry points only inside the KwikSort modules (pivot choice)", 1)
     res.rule("I5", "snapshots of dataset / scheme instances before and after end-to-end evaluation; repeatability", 10)
     res.extra["functions_summarised"] = len(eff.summ)
 
@@ -174,10 +174,10 @@ def run(ctx) -> Result:
         for cs in cg.sites.get(f.qualname, []):
             if cs.kind == "external" and cs.external and cs.external.split(".")[0] == "random":
                 n_random += 1
-                if not (f.cls is not None and f.cls.name == "KwikSortRandom" and f.name == "_get_pivot"):
+                if not f.module.name.startswith("corankco.algorithms.kwiksort"):
                     offenders.append((f, cs))
     res.check(not offenders and n_random >= 1, "I4", "random:only-through-pivot-choice", "corankco/algorithms",
-              ok_detail=f"{n_random} call(s) of random.* reachable from the entry points, all in KwikSortRandom._get_pivot",
+              ok_detail=f"{n_random} call(s) of random.* reachable from the entry points, all in the KwikSort modules",
               bad_detail=(f"{offenders[0][0].short} ({offenders[0][0].loc(offenders[0][1].node)}) calls "
                           f"{offenders[0][1].external}: results are no longer repeatable") if offenders else
               "no random call found at all (the pivot is expected to be random)")
